@@ -573,6 +573,47 @@ def _ref_shape(sym, arity, a, b, sa, sb):
     raise AnalysisError(f"no documented shape for {sym!r}/{arity}")
 
 
+def check_unify(model, ctx, rule, construct, qual="Shape._unify", wrap=None, hooks=None):
+    """Shape._unify (or another shape-unifying function `qual`) decided by partial evaluation: for every signedness pattern
+    of 0..3 input shapes with symbolic widths the result is unsigned(max(widths)) when no input is signed, else
+    signed(max(signed widths, unsigned widths + 1)).  wrap(ShapeV) builds the element the function iterates over."""
+    from itertools import product
+    from ..engine.norm import MP
+    from ..engine.shapeeval import ShapeEval, ShapeV
+    fu = model.func(f"{AST_PY}::{qual}")
+
+    def lookup(q):
+        try:
+            return model.func(f"{AST_PY}::{q}")
+        except AnalysisError:
+            return None
+    bad = []
+    n = 0
+    for k in range(0, 4):
+        for signs in product([False, True], repeat=k):
+            syms = [MP.sym(f"w{i}") for i in range(k)]
+            ops = [ShapeV(w, sg) for w, sg in zip(syms, signs)]
+            lower = {f"w{i}": (1 if sg else 0) for i, sg in enumerate(signs)}
+            got = ShapeEval({}, lookup=lookup, self_class="Shape", hooks=hooks).call(fu, [[wrap(o) for o in ops] if wrap else ops])
+            need(isinstance(got, ShapeV), f"{qual} returned {got!r}")
+            if not any(signs):
+                want_w, want_s = MP.const(0), False
+                for w in syms:
+                    want_w = want_w.max(w)
+            else:
+                want_w, want_s = None, True
+                for w, sg in zip(syms, signs):
+                    t = w if sg else w + 1
+                    want_w = t if want_w is None else want_w.max(t)
+            n += 1
+            if got.signed != want_s or got.width.key(lower) != want_w.key(lower):
+                bad.append((signs, repr(got), want_w.prune(lower).text()))
+    ctx.check(not bad, rule, construct, f"{n} signedness patterns: all unsigned -> max; otherwise signed(max(signed, unsigned + 1))",
+              f"{qual} must give unsigned(max) for all-unsigned inputs and signed(max(signed_width, unsigned_width + 1)) "
+              f"otherwise; for input signedness {bad[0][0] if bad else ''} it gives {bad[0][1] if bad else ''}, expected width "
+              f"{bad[0][2] if bad else ''}", f"{AST_PY}:{fu.lineno}")
+
+
 def r01e(model, ctx):
     from itertools import product
     from ..engine.norm import MP
@@ -695,6 +736,45 @@ def r01f(model, ctx):
 
 # ----------------------------------------------------------------------------------------------- R-01i
 
+REF_SHIFT_LEFT = """
+if not isinstance(amount, int):
+    raise TypeError()
+if amount < 0:
+    return self.shift_right(-amount)
+if self.shape().signed:
+    return Cat(Const(0, amount), self).as_signed()
+else:
+    return Cat(Const(0, amount), self)
+"""
+REF_SHIFT_RIGHT = """
+if not isinstance(amount, int):
+    raise TypeError()
+if amount < 0:
+    return self.shift_left(-amount)
+if self.shape().signed:
+    if amount >= len(self):
+        amount = len(self) - 1
+    return self[amount:].as_signed()
+else:
+    return self[amount:]
+"""
+REF_SHIFT_RIGHT_MIN = """
+if not isinstance(amount, int):
+    raise TypeError()
+if amount < 0:
+    return self.shift_left(-amount)
+if self.shape().signed:
+    return self[min(amount, len(self) - 1):].as_signed()
+else:
+    return self[amount:]
+"""
+
+
+def evalspec_hook(e, canon):
+    from .evalspec import width_sign_hook
+    return width_sign_hook(e, canon)
+
+
 def r01i(model, ctx):
     """derived operators: constant folding of part-selects, sign-preserving rewrites, rotate mirror symmetry"""
     from ..engine.norm import poly, poly_sub, poly_text
@@ -733,18 +813,16 @@ def r01i(model, ctx):
         ctx.check(ok, R, f"Value.{meth}:sign", "signed result = unsigned construction reinterpreted with as_signed()",
                   f"Value.{meth}: the signed branch must be the unsigned branch's expression with .as_signed() (the sign must not "
                   f"be lost); found {unparse(rs[0].value) if rs else '-'} / {unparse(ru[0].value) if ru else '-'}", f"{AST_PY}:{f.lineno}")
-    f = model.func(f"{AST_PY}::Value.shift_left")
-    ok = any(isinstance(x, ast.Return) and unparse(x.value) == "Cat(Const(0, amount), self)" for x in ast.walk(f)) and \
-        "if amount < 0:\n        return self.shift_right(-amount)" in unparse(f)
-    ctx.check(ok, R, "Value.shift_left", "Cat(Const(0, amount), self); negative amounts shift right",
-              "shift_left must prepend `amount` zero bits below self and delegate negative amounts to shift_right", f"{AST_PY}:{f.lineno}")
-    f = model.func(f"{AST_PY}::Value.shift_right")
-    t = unparse(f)
-    ok = "if amount >= len(self):\n            amount = len(self) - 1" in t and "return self[amount:]" in t and \
-        "if amount < 0:\n        return self.shift_left(-amount)" in t
-    ctx.check(ok, R, "Value.shift_right", "self[amount:]; a signed value keeps at least its sign bit",
-              "shift_right must drop the low `amount` bits, clamping the amount to len-1 for signed values (the sign bit remains)",
-              f"{AST_PY}:{f.lineno}")
+    from ..engine import refsem
+    for meth, refs, fact, why in [
+        ("shift_left", [REF_SHIFT_LEFT], "Cat(Const(0, amount), self); negative amounts shift right",
+         "shift_left must prepend `amount` zero bits below self and delegate negative amounts to shift_right."),
+        ("shift_right", [REF_SHIFT_RIGHT, REF_SHIFT_RIGHT_MIN], "self[amount:]; a signed value keeps at least its sign bit",
+         "shift_right must drop the low `amount` bits, clamping the amount to len-1 for signed values (the sign bit remains)."),
+    ]:
+        f, paths = refsem.method_paths(model, f"{AST_PY}::Value.{meth}", inline=False)
+        refsem.compare(ctx, R, f"Value.{meth}", f"{AST_PY}:{f.lineno}", f"Value.{meth}", paths, refs, fact=fact, why=why,
+                       hook=evalspec_hook)
     # rotates: mirror symmetry (rotate_left(n) == rotate_right(-n)) and the modulo reduction
     fl, fr = model.func(f"{AST_PY}::Value.rotate_left"), model.func(f"{AST_PY}::Value.rotate_right")
     rl = [x for x in fl.body if isinstance(x, ast.Return)][-1].value
